@@ -1,0 +1,15 @@
+//go:build verif
+
+// Verification contracts for package metadata, property C17 (in-memory and etcd metadata stores behave the
+// same), one piece only: the in-memory store copies a consumer group on PutConsumerGroup and FetchConsumerGroup
+// with cloneConsumerGroup; the copy keeps every scalar field of the group and of each member (the etcd store
+// marshals the whole protobuf message, so it keeps them by construction). Comment-only; read by /verif/govc.
+
+package metadata
+
+//@ func cloneConsumerGroup
+//@   nullable group
+//@   loop 1 invariant [C17.clone_keeps_group_fields] out != nil && group != nil && out.GroupId == group.GroupId && out.State == group.State && out.ProtocolType == group.ProtocolType && out.Protocol == group.Protocol && out.Leader == group.Leader && out.GenerationId == group.GenerationId && out.RebalanceTimeoutMs == group.RebalanceTimeoutMs
+//@   at mapupdate#1 before assert [C17.clone_keeps_member_fields] key == memberID && value != nil && member != nil && value.ClientId == member.ClientId && value.ClientHost == member.ClientHost && value.HeartbeatAt == member.HeartbeatAt && value.SessionTimeoutMs == member.SessionTimeoutMs
+//@   loop 2 invariant cloned != nil && member != nil && cloned.ClientId == member.ClientId && cloned.ClientHost == member.ClientHost && cloned.HeartbeatAt == member.HeartbeatAt && cloned.SessionTimeoutMs == member.SessionTimeoutMs
+//@   ensures [C17.clone_returns_the_copy] group != nil ==> result != nil && result.GroupId == group.GroupId && result.State == group.State && result.ProtocolType == group.ProtocolType && result.Protocol == group.Protocol && result.Leader == group.Leader && result.GenerationId == group.GenerationId && result.RebalanceTimeoutMs == group.RebalanceTimeoutMs
